@@ -64,6 +64,13 @@ pub fn dist_types(dense: bool) -> Vec<DistType> {
             v.push(DistType::Uniform { low: *lo, high: *hi });
         }
     }
+    // all pairs over the zero / sign corner (equal bounds with opposite-sign zeros, tiny ranges)
+    let z = [0.0, -0.0, f64::MIN_POSITIVE, -f64::MIN_POSITIVE, f64::from_bits(1), 1.0, -1.0];
+    for lo in z {
+        for hi in z {
+            v.push(DistType::Uniform { low: lo, high: hi });
+        }
+    }
     v.push(DistType::Uniform { low: 3.0, high: 3.0 });
     v.push(DistType::Uniform { low: -f64::MAX / 2.0, high: f64::MAX / 2.0 });
     for m in a.iter().step_by(step) {
@@ -210,9 +217,14 @@ pub fn sample_once(d: &Dist, words: &[u64], tail_seed: u64) -> Result<f64, (Stri
 }
 
 /// The value through the framework's consumers: timeout / duration clamp, limit rounding, counter cast.
+/// positions 0..8 as documented below; +8: the state carrying the distribution is a *sink* (no outgoing
+/// transitions); +16: the machine is a literal handed straight to `Framework::new` (not `Machine::new`)
+pub const CONSUMER_POSITIONS: usize = 24;
 pub fn consumer_once(d: &Dist, pos: usize, words: &[u64], tail_seed: u64) -> Result<(), (String, String)> {
     use Event::*;
+    let (variant, pos) = (pos / 8, pos % 8);
     let t: enum_map::EnumMap<Event, Vec<Trans>> = enum_map::enum_map! { NormalRecv => vec![Trans(1, 1.0)], NormalSent => vec![Trans(0, 1.0)], PaddingSent => vec![Trans(1, 1.0)], _ => vec![] };
+    let t_worker: enum_map::EnumMap<Event, Vec<Trans>> = if variant == 1 { enum_map::enum_map! { _ => vec![] } } else { t.clone() };
     let cst = crate::fam::c(1.0);
     let (a, ctr) = match pos {
         0 => (Some(Action::SendPadding { bypass: false, replace: false, timeout: *d, limit: None }), (None, None)),
@@ -225,10 +237,16 @@ pub fn consumer_once(d: &Dist, pos: usize, words: &[u64], tail_seed: u64) -> Res
         _ => (Some(Action::BlockOutgoing { bypass: true, replace: true, timeout: *d, duration: cst, limit: Some(cst) }), (None, None)),
     };
     // through the validating constructor: a machine it rejects is not part of the claim
-    let m = match std::panic::catch_unwind(std::panic::AssertUnwindSafe(|| Machine::new(u64::MAX, 0.0, u64::MAX, 0.0, vec![crate::fam::st_map(t.clone(), None, (None, None)), crate::fam::st_map(t.clone(), a, ctr)]))) {
-        Ok(Ok(m)) => m,
-        Ok(Err(_)) => return Err(("rejected".into(), String::new())),
-        Err(_) => return Err(("panic".into(), format!("Machine::new panicked: {}", first_line(&crate::explore::last_panic())))),
+    let states = vec![crate::fam::st_map(t.clone(), None, (None, None)), crate::fam::st_map(t_worker, a, ctr)];
+    let m = if variant == 2 {
+        // a literal: `Framework::new` below is the validation gate
+        Machine { allowed_padding_packets: u64::MAX, max_padding_frac: 0.0, allowed_blocked_microsec: u64::MAX, max_blocking_frac: 0.0, states }
+    } else {
+        match std::panic::catch_unwind(std::panic::AssertUnwindSafe(|| Machine::new(u64::MAX, 0.0, u64::MAX, 0.0, states))) {
+            Ok(Ok(m)) => m,
+            Ok(Err(_)) => return Err(("rejected".into(), String::new())),
+            Err(_) => return Err(("panic".into(), format!("Machine::new panicked: {}", first_line(&crate::explore::last_panic())))),
+        }
     };
     let mut script = vec![0u64]; // the transition draw
     script.extend_from_slice(words);
@@ -236,7 +254,11 @@ pub fn consumer_once(d: &Dist, pos: usize, words: &[u64], tail_seed: u64) -> Res
     rng.cap = DRAW_CAP;
     let r = std::panic::catch_unwind(std::panic::AssertUnwindSafe(|| -> Result<(), String> {
         let t0 = std::time::Instant::now();
-        let mut f = Framework::new(std::slice::from_ref(&m), 0.0, 0.0, t0, rng).map_err(|e| format!("Framework::new failed for a validated distribution: {:?}", e))?;
+        let mut f = match Framework::new(std::slice::from_ref(&m), 0.0, 0.0, t0, rng) {
+            Ok(f) => f,
+            Err(_) if variant == 2 => return Err("rejected-by-framework".to_string()),
+            Err(e) => return Err(format!("Framework::new failed for a validated distribution: {:?}", e)),
+        };
         for e in [TriggerEvent::NormalRecv, TriggerEvent::PaddingSent { machine: maybenot::MachineId::from_raw(0) }, TriggerEvent::NormalSent, TriggerEvent::NormalRecv] {
             for a in f.trigger_events(&[e], t0) {
                 let (x, y) = match crate::types::conv_std(a) {
@@ -254,6 +276,7 @@ pub fn consumer_once(d: &Dist, pos: usize, words: &[u64], tail_seed: u64) -> Res
     }));
     match r {
         Ok(Ok(())) => Ok(()),
+        Ok(Err(e)) if e == "rejected-by-framework" => Err(("rejected".into(), String::new())),
         Ok(Err(e)) => Err(("consumer".into(), e)),
         Err(_) => {
             let m = crate::explore::last_panic();
@@ -399,7 +422,7 @@ pub fn worker(ctx: &WorkerCtx) -> WorkerOut {
                                 }
                                 // the consumers, on a third of the scripts
                                 if si % 3 == 0 {
-                                    for pos in 0..8 {
+                                    for pos in 0..16 {
                                         cons += 1;
                                         if let Err((k, m)) = consumer_once(d, pos, w, tails[0]) {
                                             if k == "rejected" {
@@ -445,7 +468,7 @@ pub fn worker(ctx: &WorkerCtx) -> WorkerOut {
                 c.set(0, unit);
             }
             for d in chunk {
-                for pos in 0..8 {
+                for pos in 0..CONSUMER_POSITIONS {
                     rejected_tried += 1;
                     if let Some(fc) = fine {
                         fc.write(&json!({"property": "C13", "engine": "E3", "dist": format!("{:?}", d), "dist_hex": enc_dist(d), "words": [], "tail_seed": tails[0], "consumer": pos, "kind": "hang", "message": "worker died (hang without drawing, or abort) while running a machine that carries a distribution Dist::validate rejects but a machine constructor accepted"}));
